@@ -482,7 +482,7 @@ func part(name, kind string) *vkit.Part[Case] {
 	if kind == qadapt.KindPri {
 		rule = "rapid: capacity 0/1/2/3/5/8 x 1-40 steps of Push(priority -2..2, many ties) / Pop; Pop must return the highest priority, first-in among equals; Push refused exactly at capacity (0 admits nothing); Len equals the model; final drain checks conservation. Non-trivial: a refusal at capacity; distinct = distinct case JSON"
 	}
-	return &vkit.Part[Case]{Property: Property, Name: name, Rule: "[" + kind + "] " + rule, Quick: 3000, Thorough: 20000, Gen: Gen(kind), Exec: Exec}
+	return &vkit.Part[Case]{Property: Property, Name: name, Rule: "[" + kind + "] " + rule, Quick: 15000, Thorough: 20000, Gen: Gen(kind), Exec: Exec}
 }
 
 var (
